@@ -6,6 +6,10 @@ _NOTE = ("Bounded: holds for all values within the bounds recorded in the eviden
 _TECH = "symbolic execution of the real Python code on z3-backed proxy values (BV64/Float64/Real), branch decisions and obligations decided by z3, counterexamples replayed concretely"
 
 CLAIMS = {
+    "C08": {
+        "text": "Bounded symbolic model checking of the real HeartbeatManager (symbolic interval/timeout configuration) and of the real API objects after the real handshake (library constants 300/330 s) on a virtual-time loop: per heartbeat the console answers after a solver-chosen delay or never, silence starting at a solver-enumerated heartbeat; on every ordering class of the instants the version requests must appear at start+k*interval and the connection must be reset at exactly the instants given by 'deadline = (start | last response | previous reset) + timeout', and never when all answers come within timeout-interval; the API's response matcher is exercised with non-matching answers.",
+        "note": _NOTE, "technique": _TECH, "design_ref": "DESIGN.md section 6 C08",
+    },
     "C04": {
         "text": "Bounded symbolic model checking of every public control call of both generations on API objects built by the real handshake: enum arguments enumerated by the solver, temperatures on the 0.05 degC grid as IEEE doubles (j/20 for symbolic j in [-200,1200]), damper, durations, clock times, AC/zone numbers, limits and current mode symbolic; the single frame written is read with the reference command reader (vendor documents): addressing 0x80/0x90 from 0xB0, type, sub-header, check bytes over the right span, intended AC/zone, requested attribute = requested value (set-point within half a resolution step after clamping, in exact integers), every other attribute keep, padding zero.",
         "note": _NOTE, "technique": _TECH, "design_ref": "DESIGN.md section 6 C04",
